@@ -443,7 +443,7 @@ func Run(c *run.Ctx) {
 		kind string
 		n    int
 	}
-	plans := []plan{{"loop", c.N(64, 640)}, {"cli", c.N(40, 400)}, {"cli-follow", c.N(6, 40)}, {"exprs", c.N(6, 40)}}
+	plans := []plan{{"loop", c.N(64, 640)}, {"cli", c.N(40, 400)}, {"cli-follow", c.N(6, 40)}, {"exprs", c.N(6, 40)}, {"logger", c.N(6, 40)}}
 	if c.Thorough() {
 		plans = append(plans, plan{"pool", 200})
 	}
@@ -471,6 +471,8 @@ func one(c *run.Ctx, cs Case) bool {
 		cliFollow(c, cs)
 	case "exprs":
 		exprCase(c, cs)
+	case "logger":
+		loggerCase(c, cs)
 	case "pool":
 		poolCase(c, cs)
 	}
@@ -587,7 +589,29 @@ func cliCase(c *run.Ctx, cs Case) {
 	readers, workers, batch := 1+r.Intn(8), 1+r.Intn(16), 1+r.Intn(50)
 	args = append(args, "-i", "{eq {3} I}", "-i", "{eq {3} J}", "--readers", strconv.Itoa(readers), "--workers", strconv.Itoa(workers), "--batch", strconv.Itoa(batch))
 	unreadable := r.Intn(3) == 0
+	// interrupted runs: SIGINT while readers are still opening files (half of them cannot be opened, so reader
+	// goroutines keep writing to the deferred log) and the main goroutine flushes the log and renders for the last time
+	interrupt := cs.Index%5 == 4 && command[0] != "filter"
 	files := append([]string(nil), paths...)
+	if interrupt {
+		unreadable = false
+		readers = 1 + r.Intn(2)
+		args[len(args)-5] = strconv.Itoa(readers) // the value after --readers
+		// one good file, then a long run of paths that cannot be opened (one reader slot steps through them,
+		// logging each, while the other is busy with the good file), then the rest
+		var mixed []string
+		mixed = append(mixed, files[:min(1, len(files))]...)
+		for j := 0; j < 300; j++ {
+			mixed = append(mixed, filepath.Join(dir, fmt.Sprintf("gone-%d", j)))
+		}
+		mixed = append(mixed, files[min(1, len(files)):]...)
+		files = mixed
+		if readers < 2 {
+			readers = 2
+			args[len(args)-5] = "2"
+		}
+		c.Count("cli_interrupted_runs", 1)
+	}
 	if unreadable {
 		// 1, --readers or --readers+1 paths that cannot be opened, anywhere in the argument list (also all in
 		// front): every failed open must give its reader slot back, or the inputs behind them are never read
@@ -616,6 +640,11 @@ func cliCase(c *run.Ctx, cs Case) {
 	sc := []int{5, 40, 120, 250}[r.Intn(4)]
 	points := fmt.Sprintf("batch.beforeSend=sleep:%dus:p0.5,worker.beforeSend=sleep:%dus:p0.3,files.afterSourceCount=sleep:%dms:n3,files.beforeClose=sleep:2ms,worker.beforeCloseOut=sleep:2ms",
 		perUs, 1+perUs/4, sc)
+	if interrupt {
+		// keep the main goroutine between its last receive and the log flush for a while: what the reader
+		// goroutines log in that window is ordered with the flush only by the logger's own lock
+		points = fmt.Sprintf("batch.beforeSend=sleep:%dus:p0.5,worker.beforeSend=sleep:%dus:p0.3,files.afterSourceCount=sleep:4ms,agg.beforeFinalRender=sleep:400ms", perUs, 1+perUs/4)
+	}
 	cmd := exec.Command(bin, args...)
 	cmd.Env = append(os.Environ(), "VERIF_POINTS="+points, "VERIF_SEED="+strconv.FormatUint(cs.Seed+uint64(cs.Index), 10), "VERIF_LIVE_OUTPUT=1")
 	var stdout, stderr bytes.Buffer
@@ -626,6 +655,12 @@ func cliCase(c *run.Ctx, cs Case) {
 	}
 	done := make(chan error, 1)
 	go func() { done <- cmd.Wait() }()
+	if interrupt {
+		go func() {
+			time.Sleep(time.Duration(150+r.Intn(400)) * time.Millisecond) // shapes the schedule only
+			cmd.Process.Signal(syscall.SIGINT)
+		}()
+	}
 	var werr error
 	select {
 	case werr = <-done:
@@ -657,6 +692,12 @@ func cliCase(c *run.Ctx, cs Case) {
 	wantCode := 0
 	if unreadable {
 		wantCode = 2
+	}
+	if interrupt {
+		// what an interrupted run exits with is not part of the statement: only races, crashes and hangs are judged
+		c.Count("cli_race_runs", 1)
+		c.SetAdd("cli_commands", command[0])
+		return
 	}
 	if code != wantCode && code != 66 { // 66 = race detector's exit status, reports are read from the logs
 		c.Violation("cli-exit:"+command[0], fmt.Sprintf("rare %s exit status %d, expected %d; stderr tail %s", command[0], code, wantCode, run.Q(tailStr(es, 400))), cs)
